@@ -92,7 +92,7 @@ T = {
  "C02G": ("ContinueParentStage starts the first NOT_STARTED task", "two parallel before-stages (two ContinueParentStage messages) and two tasks", "C02 quick", "missed at first: workload with two parallel before-stages AND two own tasks added", None),
  "C02H": ("ancestor outputs merged in completion (end_time) order", "parallel branches publishing the same key, finishing in the other order", "C02 quick", "missed at first: the handlers' millisecond clock is now a logical clock owned by the harness, the completion order of stages is part of the state identity in a dedicated job, and what every execution sees is compared with the in-order run", None),
  "C03G": ("_record_activated_branches 'fixed' to find the OR join (which then ignores a multi-stage activated branch)", "OR-split with a two-stage activated branch into an OR join", "C03 quick", "missed at first: the oracle read the engine's own _activated_branches; it now derives the deselected branches from the split's conditions and durable outputs; long-branch workload added", None),
- "C03H": ("StartTask's main path does not mark its delivery processed in the transaction", "worker death before the processor's mark, a jump re-arms the stage, redelivery", "C03 quick", "missed at first: worker death on loops added to C03's quick tier", None),
+ "C03H": ("StartTask's main path does not mark its delivery processed in the transaction", "worker death before the processor's mark, a jump re-arms the stage, redelivery", "NOT DETECTED (neutralised)", "caught by C03 once worker death on loops was added to its quick tier (task ran in an unstarted stage); fix 21d1ed0 (a StartTask that finds its stage NOT_STARTED is stale) then removed the damage the redelivery could do, and the change's own demonstration passes on the repaired tree", None),
  "C05G": ("'core work done' no longer counts FAILED_CONTINUE", "task FAILED_CONTINUE on a stage with an after-stage declared in the definition", "C05 quick", "missed at first: synthetic children could only be builder-planned; workloads may now declare them", None),
  "C05H": ("OR-split forgets the branch whose condition cannot be evaluated", "a condition raising ExpressionError next to a branch that activates", "C05 quick", "missed at first: workload with an un-evaluable split condition added", None),
  "C06G": ("store.pause() only refuses halted executions (SUCCEEDED may be paused)", "operator pause after a successful completion", "C06 quick", "", None),
